@@ -36,7 +36,7 @@ PROPS = {
         "rule": "case = (config, route table of 1-14 API calls, 40-60 requests); non-trivial = expected trace has >=2 handlers, or path <=3 bytes (index boundary), or a path/method override fires, or the answer is 405; distinct by (config, expected trace, method, path, status)",
         "subs": [
             {"engine": "route.dispatch", "mode": "plain", "shards": {Q: 16, T: 16},
-             "min_nontrivial": {Q: 2000, T: 100000}, "require_stats": {"overrides": 100, "status405": 100}},
+             "min_nontrivial": {Q: 20000, T: 500000}, "require_stats": {"overrides": 1000, "status405": 1000}},
         ],
     },
     "C02": {
@@ -47,7 +47,7 @@ PROPS = {
         "rule": "case = (pattern, config, 30-40 paths incl. the pattern text itself, valid fillings, one-value-violating fillings, mutations); non-trivial = request to a pattern with >=1 constrained parameter (handler ran, or correctly rejected); distinct by (pattern, path)",
         "subs": [
             {"engine": "route.sound", "mode": "plain", "shards": {Q: 16, T: 16},
-             "min_nontrivial": {Q: 20000, T: 400000}, "require_stats": {"ran": 1000, "not_run": 1000}},
+             "min_nontrivial": {Q: 200000, T: 380000}, "require_stats": {"ran": 10000, "not_run": 10000}},
         ],
     },
     "C03": {
@@ -71,7 +71,7 @@ PROPS = {
         "rule": "case = (config, tree of <=14 route statements, 40-60 requests); non-trivial = request whose trace enters a mounted app (resp. a group); distinct by (case, method, path)",
         "subs": [
             {"engine": "route.mount", "mode": "plain", "shards": {Q: 16, T: 16},
-             "min_nontrivial": {Q: 1000, T: 50000}},
+             "min_nontrivial": {Q: 10000, T: 380000}},
         ],
     },
 
